@@ -197,6 +197,8 @@ def f_remove(p, *a, **k):
     vp = virt(p)
     if vp is None or V is None:
         return REAL["remove"](p, *a, **k)
+    if V.frozen:
+        return None
     if vp not in V.files:
         if V.is_dir(vp):
             raise IsADirectoryError(21, "Is a directory (vfs)", vp)
@@ -261,6 +263,8 @@ def f_replace(src, dst, *a, **k):
     vs, vd = virt(src), virt(dst)
     if vs is None or vd is None or V is None:
         return REAL["replace"](src, dst, *a, **k)
+    if V.frozen:
+        return None           # the process is dead: nothing it "does" afterwards has any effect
     if vs not in V.files:
         raise FileNotFoundError(2, "No such file or directory (vfs)", vs)
     if V.tick("replace", vd):
